@@ -39,7 +39,7 @@ var c17ExtConf = [][2]int{{1, 0}, {2, 0}, {2, 1}, {3, 0}, {3, 1}, {3, 2}}
 
 type C17Scn struct {
 	Req       int               `json:"req"`
-	Entry     string            `json:"entry"` // do | plan
+	Entry     string            `json:"entry"` // do | plan | plan-addext (extensions registered after planning)
 	NExt      int               `json:"n_ext"`
 	Plan      map[string]string `json:"plan,omitempty"`
 	HasResult map[string]bool   `json:"has_result,omitempty"`
@@ -85,7 +85,7 @@ func (p c17) Gen(seed uint64, enum int, tier string) json.RawMessage {
 		return mustJSON(s)
 	}
 	r := NewRNG(seed)
-	s.Entry = []string{"do", "plan"}[r.Intn(2)]
+	s.Entry = []string{"do", "plan", "plan-addext"}[r.Intn(3)]
 	s.Req = r.Intn(len(c17Reqs))
 	s.NExt = 1 + r.Intn(3)
 	s.Plan = map[string]string{}
@@ -184,7 +184,12 @@ func (c17) Run(t TestingT, scn json.RawMessage, tape *Tape) *Outcome {
 		exts = append(exts, &SimExt{N: extName(i), R: run})
 	}
 	verifmo.Set(verifmo.Sorted, 0)
-	w := NewWorld("A", exts...)
+	var w *World
+	if sc.Entry == "plan-addext" {
+		w = NewWorld("A") // the extensions are registered after the plan was prepared
+	} else {
+		w = NewWorld("A", exts...)
+	}
 	verifmo.Set(sc.Order, sc.Salt)
 	defer verifmo.Set(verifmo.Sorted, 0)
 	rc := &ReqCtx{Task: "c1", W: w, Faults: req.Faults, Ext: run, RootTok: Tok{T: "Query"}}
@@ -199,15 +204,19 @@ func (c17) Run(t TestingT, scn json.RawMessage, tape *Tape) *Outcome {
 				escaped = r
 			}
 		}()
-		if entry == "plan" {
+		if entry == "plan" || entry == "plan-addext" {
 			doc, err := parseDoc(req.Query)
-			if err != nil {
-				entry = "do"
-			} else if vr := graphql.ValidateDocument(&w.Schema, doc, nil); !vr.IsValid {
-				entry = "do"
-			} else if plan, err := graphql.PlanQuery(&w.Schema, doc, ""); err != nil {
+			var plan *graphql.Plan
+			if err == nil && graphql.ValidateDocument(&w.Schema, doc, nil).IsValid {
+				plan, err = graphql.PlanQuery(&w.Schema, doc, "")
+			}
+			if entry == "plan-addext" {
+				w.Schema.AddExtensions(exts...)
+			}
+			if err != nil || plan == nil {
 				entry = "do"
 			} else {
+				entry = "plan"
 				res = graphql.ExecutePlan(plan, graphql.ExecuteParams{Schema: w.Schema, Args: req.Vars, Context: ctx})
 				return
 			}
